@@ -18,9 +18,9 @@ func TestSweep(t *testing.T) {
 	env := kit.GetEnv(Property)
 	rec := kit.NewRecorder(env, "sweep")
 	defer func() { rec.Flush(!t.Failed()) }()
-	shapes := [][2]int{{1, 1}, {2, 7}, {8, 64}}
+	shapes := [][2]int{{1, 1}, {2, 7}, {8, 64}, {2, 2048}} // the last one is long enough for block/table fast paths
 	if env.Thorough() {
-		shapes = append(shapes, [2]int{3, 0}, [2]int{5, 1000}, [2]int{1, 4096}, [2]int{4, 2})
+		shapes = append(shapes, [2]int{3, 0}, [2]int{5, 1000}, [2]int{1, 4096}, [2]int{4, 2}, [2]int{8, 4096}, [2]int{3, 341})
 	}
 	for _, sh := range shapes {
 		for _, win := range []bool{false, true} {
